@@ -41,14 +41,25 @@ structure OBox where
   c1 : Nat
 deriving Repr, DecidableEq, Inhabited
 
+/-- the boxes of the three loops, before `Box.__init__` checks them -/
+def ofmBoxesRaw (sH sW sC eH eW eC stepH stepW : Nat) (slices : List Nat) : List OBox :=
+  let ds := depthIntervals sC eC slices
+  (axisIntervals sH eH stepH).flatMap fun hh =>
+    (axisIntervals sW eW stepW).flatMap fun ww =>
+      ds.map fun cc => (⟨hh.1, hh.2, ww.1, ww.2, cc.1, cc.2⟩ : OBox)
+
 /-- OFM boxes in emission order. `range()` with step 0 raises ValueError; a depth interval with
     `start > end` trips the assertion of `Box.__init__`; `batch start > batch end` as well. -/
 def ofmBoxes (sN sH sW sC eN eH eW eC stepH stepW : Nat) (slices : List Nat) : Except Err (List OBox) :=
   if stepH = 0 ∨ stepW = 0 then .error .value else
-  let ds := depthIntervals sC eC slices
-  let bs := (axisIntervals sH eH stepH).flatMap fun hh =>
-    (axisIntervals sW eW stepW).flatMap fun ww =>
-      ds.map fun cc => (⟨hh.1, hh.2, ww.1, ww.2, cc.1, cc.2⟩ : OBox)
+  let bs := ofmBoxesRaw sH sW sC eH eW eC stepH stepW slices
   if bs.all (fun b => b.c0 ≤ b.c1) && (bs.isEmpty || sN ≤ eN) then .ok bs else .error .assert
+
+/-- what the generator emits before the first failing `Box(...)`: the boxes up to it, and the error -/
+def ofmBoxesPrefix (sN sH sW sC eN eH eW eC stepH stepW : Nat) (slices : List Nat) : List OBox × Option Err :=
+  if stepH = 0 ∨ stepW = 0 then ([], some .value) else
+  let bs := ofmBoxesRaw sH sW sC eH eW eC stepH stepW slices
+  let good := bs.takeWhile fun b => decide (b.c0 ≤ b.c1) && decide (sN ≤ eN)
+  (good, if good.length < bs.length then some .assert else none)
 
 end VelaVerif.Stripes
